@@ -186,6 +186,11 @@ def run_scenario(scn: dict, chooser, *, line_mode=False):
                      f"{sched.outcome}: {sched.deadlock_info}; unreturned sync calls={[(k, v['size']) for k, v in calls.items() if v['sync'] and v['end'] is None]}; api={_brief(api_calls)} cfg={cfg}"))
     elif sched.outcome == "step_cap":
         info["inconclusive"] = True
+    if sched.root_exc is not None and D.is_harness_exc(sched.root_exc):
+        raise D.HarnessError(f"harness exception in scenario: {sched.root_exc!r}") from sched.root_exc
+    for t_ in sched.tasks:
+        if t_.exc is not None and D.is_harness_exc(t_.exc):
+            raise D.HarnessError(f"harness exception in task {t_.name}: {t_.exc!r}") from t_.exc
     if sched.root_exc is not None:
         viol.append(("exception", type(sched.root_exc).__name__, repr(sched.root_exc)))
     for t in sched.tasks:
